@@ -42,3 +42,15 @@ def run(souffle, d, args=(), env=None, outdir=".", timeout=180, prog="p.dl"):
         r = runner.run_souffle(souffle, d, args=list(args), env_extra=env, timeout=timeout * 6, outdir=outdir, prog=prog)
         ck = runner.crash_key(r)
     return r, ck
+
+
+def make_runner(souffle, d, compiled_mode, extra_args=()):
+    """-> function (j, outdir, env) -> (Run, crash key); in compiled mode the program is turned into an executable once (`souffle -o`, generated
+    with -j4 so that parallel loops exist) and that executable is run; returns None if the build fails"""
+    if not compiled_mode:
+        return lambda j, od, env=None: run(souffle, d, args=["-j%d" % j] + list(extra_args), env=env, outdir=od)
+    from . import compiled
+    r, ck = compiled.build_exe(souffle, d, jobs=4, extra=extra_args)
+    if ck is not None or r.rc != 0:
+        return None
+    return lambda j, od, env=None: compiled.run_exe(d, outdir=od, jobs=j, env=env)
